@@ -31,14 +31,23 @@ PAYLOAD_RE = r"^\|in\.__\*%s_\.(\d+)_as_Some_\.0(?:!\d+)?\|$"
 
 
 def run(ob, tier):
-    fn = mirrun.get_fn("command", ob["fn_suffix"])
-    ex = engine.Executor(fn, loop_bound=lambda f, h: 2)
+    fn = mirrun.get_fn(ob.get("crate", "command"), ob["fn_suffix"], sig=ob.get("sig"))
+    ex = engine.Executor(fn, loop_bound=lambda f, h: 2, max_nodes=200000)
     events = ex.run()
     listener = fn.debug.get("listener")
     patch = fn.debug.get("patch")
-    if not listener or not patch:
-        return {"verdict": "inconclusive", "why": "no `listener` / `patch` binding in the MIR debug info"}
-    lref = "(*%s)" % listener
+    if ob.get("self_field"):
+        # worker-side listener objects: the patched config is a field of self
+        src = open(os.path.join(mirrun.REPO, ob["self_struct_path"])).read()
+        m = re.search(r"pub struct %s \{(.*?)\n\}" % re.escape(ob["self_struct"]), src, re.S)
+        names = re.findall(r"^\s*(?:pub(?:\([\w:]+\))? )?(\w+):", m.group(1), re.M)
+        lref = "(*_1).%d" % names.index(ob["self_field"])
+    elif listener:
+        lref = "(*%s)" % listener
+    else:
+        return {"verdict": "inconclusive", "why": "no `listener` binding in the MIR debug info"}
+    if not patch:
+        return {"verdict": "inconclusive", "why": "no `patch` binding in the MIR debug info"}
     pref = "(*%s)" % patch
     writes = [e for e in events if e.kind in ("write", "havoc") and e.place.startswith(lref)]
     rets = [e for e in events if e.kind == "return"]
@@ -79,11 +88,43 @@ def run(ob, tier):
         def nm(p):
             m = re.match(re.escape(lref) + r"\.(\d+)", p)
             return names_l[int(m.group(1))] if m and int(m.group(1)) < len(names_l) else p
-        text = "%s returns Err after writing listener field(s) %s" % (ob["fn_suffix"].strip(":"), ", ".join(sorted({nm(p) for p in hit})) or "?")
-        rp = mirrun.native_test("c07_atomic", ob.get("replay_filter", ""))
+        # which fallible call can make the function fail after a store?  (one clause each,
+        # so that a known finding about one source does not hide another)
+        pos = {n: i for i, n in enumerate(ex.topo)}
+        sources = []
+        for e in events:
+            if e.kind != "call" or e.dest is None:
+                continue
+            dk = ex.initial.get("discr(%s)" % e.dest)
+            if dk is None or getattr(e, "passthrough_of", None):
+                continue
+            if not re.search(r"^(std::result::)?Result<", (fn.locals.get(e.dest) or "").replace("std::result::", "")) and "Result<" not in (fn.locals.get(e.dest) or ""):
+                continue
+            before = [w.guard for w in writes if pos.get(w.node, 0) <= pos.get(e.node, 0)]
+            if not before:
+                continue
+            v3, _, _ = q([ret.guard, is_err, e.guard, "(= %s %s)" % (dk.term, engine.bv(1, 64)), engine.OR(*before)])
+            if v3 == "sat":
+                sources.append(re.sub(r"::<.*?>", "", e.callee).split("(")[0])
+        fname = ob["fn_suffix"].strip(":")
+        # an error produced by the function itself (`return Err(..)`) rather than by a callee
+        calls_ok = []
+        for e in events:
+            if e.kind == "call" and e.dest is not None and not getattr(e, "passthrough_of", None):
+                dk = ex.initial.get("discr(%s)" % e.dest)
+                if dk is not None and "Result<" in (fn.locals.get(e.dest) or ""):
+                    calls_ok.append(engine.OR(engine.NOT(e.guard), "(= %s %s)" % (dk.term, engine.bv(0, 64))))
+        v4, _, _ = q([ret.guard, is_err, any_write] + calls_ok)
+        if v4 == "sat":
+            sources.append("an explicit `return Err`")
+        if sources:
+            text = "; ".join("%s returns Err from %s after listener fields were stored" % (fname, s0) for s0 in sorted(set(sources)))
+        else:
+            text = "%s returns Err after writing listener field(s) %s" % (fname, ", ".join(sorted({nm(p) for p in hit})) or "?")
+        rp = mirrun.native_test(ob.get("replay_test", "c07_atomic"), ob.get("replay_filter", ""))
         return dict(res, verdict="counterexample", text=text, model={"written_before_err": hit},
                     queries=queries, solver_s=secs,
-                    replay={"reproduced": rp["ran"] and rp["failed"], "path": os.path.join(mirrun.VERIF, "replay/tests/c07_atomic.rs"), "log": rp["log"]})
+                    replay={"reproduced": rp["ran"] and rp["failed"], "path": os.path.join(mirrun.VERIF, "replay/tests/%s.rs" % ob.get("replay_test", "c07_atomic")), "log": rp["log"]})
 
     # (b)+(c) every write stores the payload of the same-named patch field, only when it is Some
     names_l = struct_fields(ob["listener_struct"])
